@@ -3,7 +3,7 @@
  "id": "QBE.zero",
  "file": "qbe.c", "function": "zero",
  "properties": {"C07": "contract", "C01": "contract", "C19": "safety"},
- "mode": "dfcc", "enforce": "zero/zero_contract",
+ "mode": "dfcc", "enforce": "zero/zero_contract", "post_macro": "POST_ZERO",
  "replace_calls": {"funcinst": "rec_funcinst", "mkintconst": "rec_mkintconst"},
  "loop_contracts": {"zero": [{"loop_id": "0",
      "assigns": "offset, a, tmp, g, g_const",
